@@ -8,7 +8,7 @@ from vf.props import _pairing_common as pc
 from vf.props._curve_common import mod
 from vf.strategies import uniform_int
 
-RULE = ("(diff) for both curves, scalars a, b (boundary and uniform) and random projective scalings of the "
+RULE = ("(diff) for both curves, scalars a, b in [0, r] (boundary, uniform, 0 and r = the identity in several z = 0 representatives) and random projective scalings of the "
         "optimized inputs: coefficient list of optimized pairing(bG2, aG1) == that of the reference pairing; "
         "(split) for both optimized modules and lists of 1..6 scalar pairs: final_exponentiate(prod pairing(Q_i, "
         "P_i, final_exponentiate=False)) == prod pairing(Q_i, P_i); (fexp) for FQ12 elements 0, 1, w, w^11, "
@@ -19,7 +19,7 @@ RULE = ("(diff) for both curves, scalars a, b (boundary and uniform) and random 
 ASSUMPTIONS = ["reference pairings are the specification for the optimized ones (their algebraic laws are C05's)",
                "model extension-field power (vf/model/fields.py) for the plain exponentiation"]
 ENGINE = "hypothesis (differential and metamorphic)"
-_REQ = ["interleaved:both_curves", "diff:bn128", "diff:bls12_381", "diff:scaled", "split:optimized_bn128", "split:optimized_bls12_381",
+_REQ = ["interleaved:both_curves", "diff:identity_argument", "diff:bn128", "diff:bls12_381", "diff:scaled", "split:optimized_bn128", "split:optimized_bls12_381",
         "split:n>=2", "fexp:optimized_bls12_381", "fexp:exp_by_p", "fexp:x=0", "fexp:sparse", "fexp:model_power",
         "fexp:bn128", "fexp:optimized_bn128", "fexp:bls12_381"]
 REQUIRED_LABELS = {"quick": _REQ, "thorough": _REQ}
@@ -32,8 +32,16 @@ def o_diff(ctx, case):
     ref, opt = pc.REF_OF[curve], pc.OPT_OF[curve]
     P, Q = pc.kG(curve, "G1", a), pc.kG(curve, "G2", b)
     want = pc.pm(ref).pairing(pc.lib_pt(ref, "G2", Q), pc.lib_pt(ref, "G1", P))
-    got = pc.pm(opt).pairing(pc.lib_pt(opt, "G2", Q, scale=pc.unscale(case.get("sq"))),
-                             pc.lib_pt(opt, "G1", P, scale=pc.unscale(case.get("sp"))))
+    k = case.get("inf_rep", 0) % 3
+    oQ = pc.lib_pt(opt, "G2", Q, scale=pc.unscale(case.get("sq")), inf_rep=INF_G2[k])
+    oP = pc.lib_pt(opt, "G1", P, scale=pc.unscale(case.get("sp")), inf_rep=INF_G1[k])
+    got = pc.pm(opt).pairing(oQ, oP)
+    if P is None or Q is None:
+        ctx.label("diff:identity_argument")
+        raw = pc.pm(opt).pairing(oQ, oP, final_exponentiate=False)
+        ctx.check(pc.coeffs(pc.pm(opt).final_exponentiate(raw)) == pc.coeffs(want), "diff", "raw_identity", case,
+                  f"optimized {curve}: final_exponentiate(pairing(.., final_exponentiate=False)) with an identity "
+                  f"argument differs from the reference pairing")
     ctx.check(type(got) is mod(opt).FQ12, "diff", "type", case, f"optimized pairing returned {type(got).__name__}")
     ctx.check(pc.coeffs(got) == pc.coeffs(want), "diff", "value", case,
               f"optimized {curve} pairing differs from the reference pairing for a={a}, b={b}")
@@ -45,6 +53,10 @@ def o_diff(ctx, case):
     ctx.sample(case, f"diff:{curve}")
 
 
+INF_G1 = [(1, 1, 0), (0, 1, 0), (5, 7, 0)]
+INF_G2 = [((1, 0), (1, 0), (0, 0)), ((0, 0), (1, 0), (0, 0)), ((5, 3), (7, 11), (0, 0))]
+
+
 def o_split(ctx, case):
     name = case["module"]
     curve = pc.CURVE_OF[name]
@@ -52,8 +64,8 @@ def o_split(ctx, case):
     M = pc.pm(name)
     acc_raw, acc_full = pc.one12(name), pc.one12(name)
     for a, b, sq, sp in case["pairs"]:
-        Q = pc.lib_pt(name, "G2", pc.kG(curve, "G2", b), scale=pc.unscale(sq))
-        P = pc.lib_pt(name, "G1", pc.kG(curve, "G1", a), scale=pc.unscale(sp))
+        Q = pc.lib_pt(name, "G2", pc.kG(curve, "G2", b), scale=pc.unscale(sq), inf_rep=INF_G2[(a + b) % 3])
+        P = pc.lib_pt(name, "G1", pc.kG(curve, "G1", a), scale=pc.unscale(sp), inf_rep=INF_G1[(a + b) % 3])
         acc_raw = acc_raw * M.pairing(Q, P, final_exponentiate=False)
         acc_full = acc_full * M.pairing(Q, P)
     got = M.final_exponentiate(acc_raw)
@@ -133,15 +145,17 @@ ORACLES = {"diff": o_diff, "split": o_split, "fexp": o_fexp, "interleaved": o_in
 
 def s_diff(curve):
     r = mc.CURVES[curve].r
-    return st.fixed_dictionaries({"curve": st.just(curve), "a": pc.s_scalar(r).filter(lambda v: 0 < v < r),
-                                  "b": pc.s_scalar(r).filter(lambda v: 0 < v < r),
+    # a, b in [0, r]: 0 and r give the identity (any z = 0 representative in the optimized module)
+    return st.fixed_dictionaries({"curve": st.just(curve), "a": pc.s_scalar(r), "b": pc.s_scalar(r),
+                                  "inf_rep": st.integers(0, 2),
                                   "sq": pc.s_scale(curve, "G2", True), "sp": pc.s_scale(curve, "G1", True)})
 
 
 def s_split(name):
     curve = pc.CURVE_OF[name]
     r = mc.CURVES[curve].r
-    pair = st.tuples(st.one_of(st.integers(1, 50), uniform_int(1, r - 1)), st.one_of(st.integers(1, 50), uniform_int(1, r - 1)),
+    sc_ = st.one_of(st.integers(0, 50), uniform_int(1, r - 1), st.just(r))
+    pair = st.tuples(sc_, sc_,
                      pc.s_scale(curve, "G2", True), pc.s_scale(curve, "G1", True)).map(list)
     return st.fixed_dictionaries({"module": st.just(name), "pairs": st.lists(pair, min_size=1, max_size=6)})
 
@@ -167,6 +181,10 @@ def t_diff(ctx, curve, shard, n):
     r = mc.CURVES[curve].r
     ex = [{"curve": curve, "a": 1, "b": 1, "sq": None, "sp": None},
           {"curve": curve, "a": r - 1, "b": 2, "sq": [1, 1], "sp": 2}] if shard == 0 else []
+    if shard == 1:
+        ex = [{"curve": curve, "a": 3, "b": 0, "sq": None, "sp": None, "inf_rep": 0},
+              {"curve": curve, "a": 0, "b": 5, "sq": None, "sp": None, "inf_rep": 1},
+              {"curve": curve, "a": 7, "b": r, "sq": None, "sp": 2, "inf_rep": 2}]
     drive(ctx, f"diff{curve}{shard}", s_diff(curve), lambda c: o_diff(ctx, c), n, ex, shrink=False)
 
 
